@@ -235,7 +235,8 @@ fn sequential_part(thorough: bool, evals: &AtomicU64, nontrivial: &AtomicU64) ->
                 let r2 = hub_sync(&sc, &local, &hub, *ssh);
                 evals.fetch_add(1, Ordering::Relaxed);
                 let after2 = snapshot_hub(&hub);
-                if r2.code != Some(0) || sent_count(&r2.stdout).map(|c| c.0) != Some(0) || after2 != after {
+                // (the summary line is compared only when it parses: its wording is not part of the property)
+                if r2.code != Some(0) || sent_count(&r2.stdout).is_some_and(|c| c.0 != 0) || after2 != after {
                     return Some(Violation::new("second_run_sends", format!("hub {hb}, runs {names:?}, run #{step}: an immediate second run reports {:?} (exit {:?}) or changed the hub", sent_count(&r2.stdout), r2.code), det));
                 }
             }
